@@ -60,7 +60,7 @@ S["trm"] = [("RunString", "SOLUTION 0\n pH 7\n Ca 1\n Cl 2\nSOLUTION 1-3\n pH 7\
 
 S["tre"] = [("RunString", "SOLUTION 0\n pH 7\n Ca 1\n Cl 2\nSOLUTION 1-4\n pH 7\n Na 1\n Cl 1\nEXCHANGE 1-3\n X 0.001\n -equilibrate 1\n"
              "TRANSPORT\n -cells 3\n -shifts 2\n -flow_direction diffusion_only\n -boundary_conditions constant constant\n -time_step 500\n"
-             " -multi_d true 2e-9 0.4 0.02 1.5\n -interlayer_d true 0.1 0.01 100\n -fix_current 1e-6\n -same_model 1-3\n"
+             " -multi_d true 2e-9 0.4 0.02 1.5\n -interlayer_d true 0.1 0.01 100\n -fix_current 1e-6\n"
              " -dump hist_transport.dmp\n -dump_frequency 1\n -dump_restart 1\n -temp_retardation_factor 2.5\n -output_frequency 3\n -selected_output_frequency 3\nEND\n")]
 
 S["inv"] = [("RunString", "SOLUTION 1\n pH 7\n Na 1\n Cl 1\nSOLUTION 2\n pH 7\n Na 2\n Cl 2\n"
